@@ -95,7 +95,7 @@ type G struct {
 	lastCfg           *Blob   // config of the image generated last
 	Alg               string
 	NoExt             bool // never generate external (URL) layers
-	ArtifactAnnotMode int  // Artifact: 0 one annotation, 1 an empty annotations object, 2 none
+	ArtifactAnnotMode int  // Artifact: 0 the serial annotation, 1 an empty annotations object, 2 none, 3 another annotation only
 }
 
 func New(t *simrt.Tape) *G { return &G{T: t, MaxBlob: 600, Alg: "sha256"} }
@@ -286,6 +286,9 @@ func (g *G) Artifact(subject *Node, artType string) *Node {
 	case 2:
 		n.Annot = nil
 		fields = fields[:len(fields)-1]
+	case 3: // annotations, but not the serial one
+		n.Annot = map[string]string{"org.example.other": fmt.Sprint(g.n)}
+		fields[len(fields)-1] = kv{"annotations", n.Annot}
 	}
 	if subject != nil {
 		n.Subject = subject.Digest
